@@ -2,16 +2,23 @@
 // One case per input line, fields separated by one space, strings as hex UTF-16 code units
 // (4 hex digits per unit, "-" = empty (non-null) string, "~" = null pointer for category/file/function
 // and a null QString for the message):
-//   pat type msg cat file fn line nattr (key tval)* ntf (timefmt)* [prefmt twice]
+//   pat type msg cat file fn line nattr (key tval)* ntf (timefmt)* [prefmt twice [seq]]
 //   prefmt = ~ (none) or the text given to setFormattedMessage() BEFORE format() is called (another formatter ran first);
 //   twice = 1: the formatter is first run through Formatter::process() on the message, then format() is observed.
 //   %{message} is the raw message text in every case.
+//   seq (optional) = position of this message in a SEQUENCE of messages formatted by ONE PatternFormatter object:
+//   0 = a new object is constructed from pat and kept; k > 0 = the object kept from the previous lines is used
+//   (its pattern must be pat; otherwise the line is answered with "!protocol").  Without the field every case
+//   gets its own formatter object, as before.
 //   tval = s<hex> (QString; s~ = null QString, s- = empty) | i<decimal> (int / qlonglong) | b0 | b1 (bool)
 //
 // default mode, output line:
 //   <formatted> <N|V: result.isNull() or not> <threadId decimal> <qthreadptr decimal> <%{func} rendering> (<rendering of each timefmt>)*
 // Before every case a fixed "poison" pattern ending in a missing optional attribute (?0,3) is formatted on
 // the same thread, so that state leaking from one format() call into the next shows up in every case.
+// With a seq field one more group follows at the end of the line: "=" when a FRESH PatternFormatter(pat) gives, for
+// the very same LogMessage object, the same text and the same null-ness as the kept object did, else "#<hex>" or
+// "#<hex>/null" = what the fresh object gave (format is a function of pattern and message: they may never differ).
 // The last three groups are the environment the model takes as given (thread id, function-name
 // clean-up = C14, QDateTime::toString / process- and boot-relative seconds).
 //
@@ -31,6 +38,7 @@
 #include <iostream>
 #include <memory>
 #include <sstream>
+#include <stdexcept>
 #include <thread>
 #include <vector>
 using namespace QtLogger;
@@ -59,6 +67,7 @@ struct Case
     std::unique_ptr<LogMessage> m;
     std::vector<QString> tfs;
     bool twice = false;         // run the formatter through Formatter::process() once before the observed format() call
+    long seq = -1;              // >= 0: position in a sequence of messages formatted by one kept formatter object
     // threads mode
     std::unique_ptr<PatternFormatter> pf;
     QString expected, firstBad;
@@ -92,6 +101,8 @@ static void parse(const std::string &line, Case &k)
     if (is >> pre >> twice) {
         if (pre != "~") k.m->setFormattedMessage(unhex(pre));
         k.twice = (twice == "1");
+        std::string seq;
+        if (is >> seq) k.seq = std::stol(seq);
     }
 }
 static int threadsMode(int K, long rounds, long maxms)
@@ -139,6 +150,8 @@ int main(int argc, char **argv)
     if (argc >= 5 && std::string(argv[1]) == "threads")
         return threadsMode(std::stoi(argv[2]), std::stol(argv[3]), std::stol(argv[4]));
     std::string line;
+    std::unique_ptr<PatternFormatter> kept;     // the formatter object of the sequence in progress
+    QString keptPat;
     while (std::getline(std::cin, line)) {
         Case k;
         parse(line, k);
@@ -151,7 +164,11 @@ int main(int argc, char **argv)
                 LogMessage pm(QtDebugMsg, QMessageLogContext(), QStringLiteral("poison"));
                 (void)PatternFormatter(QStringLiteral("p%{verif_poison_attr?0,3}")).format(pm);
             }
-            PatternFormatter pf(k.pat);
+            std::unique_ptr<PatternFormatter> own;
+            if (k.seq < 0) own.reset(new PatternFormatter(k.pat));
+            else if (k.seq == 0) { kept.reset(new PatternFormatter(k.pat)); keptPat = k.pat; }
+            else if (!kept || keptPat != k.pat) throw std::runtime_error("protocol: no kept formatter object with this pattern");
+            PatternFormatter &pf = own ? *own : *kept;
             if (k.twice) pf.process(m);   // = m.setFormattedMessage(pf.format(m)): the message now carries formatter output
             const QString res = pf.format(m);
             o << hex(res) << ' ' << (res.isNull() ? 'N' : 'V') << ' ' << m.threadId() << ' ' << qulonglong(m.qthreadptr()) << ' '
@@ -165,6 +182,11 @@ int main(int argc, char **argv)
                 else
                     r = m.time().toString(t);
                 o << ' ' << hex(r);
+            }
+            if (k.seq >= 0) {
+                const QString fres = PatternFormatter(k.pat).format(m);
+                if (fres == res && fres.isNull() == res.isNull()) o << " =";
+                else o << " #" << hex(fres) << (fres.isNull() ? "/null" : "");
             }
         } catch (const std::exception &e) {
             o.str(""); o << "!exception " << e.what();
